@@ -37,9 +37,11 @@ ERROR awkward_NumpyArray_unique_strings_uint8(
         start = offsets[i];
      }
      counter++;
+     outoffsets[counter] = index;
    }
    slen = offsets[i + 1] - offsets[i];
   }
+  outoffsets[0] = 0;
   *tolength = counter + 1;
 
   return success();
